@@ -25,10 +25,19 @@ REQUIRED = [P + t for t in (
     # R2
     "edgeStep_inv", "multiInit_spec", "edgeInit_inv", "stepSmall_inv", "stepBig_inv", "edge_x_of_inv",
     "edge_x_near_snapX", "edge_x_eq_snapX_partial", "edge_state_depends_on_history", "edge_step_loses_fraction",
-    # R3
-    "row1_spec", "row4_spec", "row8_spec_partial", "renderSamplesX8_count",
+    # R3: one row
+    "row1_spec", "row4_spec", "row8_spec", "renderSamplesX8_count",
+    # R3: a8 span-fill bookkeeping = naive loop
+    "spanfill_eq_naive", "edgesLoop8_eq_naive",
+    # R3: all sample rows of a shape (induction over the rows with the walker invariant)
+    "rasterizeEdges_rows", "addShape_eq_addSpans", "walkRows_inv", "rasterizeEdges_walked", "rasterizeEdges_eq_addShape",
+    # R3 at the entry points: pixman_rasterize_trapezoid, pixman_add_traps (one pixman_trap_t)
+    "rasterizeTrapezoid_eq_addShape", "addTrap_eq_addShape", "rasterizeTrapezoid_nothing", "rasterizeTrapezoid_offsets",
+    "addTrapezoids_eq_addShapes", "addTraps_eq_addShapes", "addTrap_offsets",
+    # R5: triangle = its two trapezoids, every vertex order
+    "triangle_tiles", "triangle_inside_iff", "addTriangles_eq", "addTriangle_eq_triCount",
     # R4
-    "rowCount_split", "pixelValue_add", "pixelCount_hsplit", "pixelCount_edgesplit", "row8_abut_partial",
+    "rowCount_split", "pixelValue_add", "pixelCount_hsplit", "pixelCount_edgesplit", "pixelCount_move", "row8_abut",
     # R6
     "zeroSrc_table_sound", "zeroSrc_table_tight",
 )]
@@ -36,10 +45,22 @@ PARTIAL = {
     "edge_x_eq_snapX_partial": "design R2 claimed e.x = snapped exact abscissa on every row; false for the code when pixman_edge_step "
                                "loses the fraction or at lattice ties (edge_step_loses_fraction, edge_state_depends_on_history); "
                                "proved: exact invariant with the lost term, |e.x - snapX| <= 2, equality without loss/tie",
-    "row8_spec_partial": "a8 row body without the span-fill bookkeeping; span-fill loop = naive loop is only tested (flag f)",
-    "row8_abut_partial": "same gap as row8_spec_partial",
-    "R3-rows-induction": "no theorem rasterizeEdges = Spec.addShape over all sample rows of a shape (tested by the Spec oracle)",
-    "R5": "triangle = its two trapezoids: not proved; pixman_add_triangles is only tied to the model (correspondence)",
+    "rasterizeTrapezoid_eq_addShape": "the composition sample_ceil_y/floor_y -> edge_init x2 -> rasterize_edges = Spec.addShape is a theorem "
+                                      "(also addTrap_eq_addShape for pixman_add_traps) in the region where the walker is exact: "
+                                      "InitOK (pixman_edge_step loses nothing: a right-leaning edge walked downwards starts at its top "
+                                      "or has integral slope) and RowsOK (on each row the edge misses the lattice points, leans left, or "
+                                      "has integral slope); outside it the equality is false for the code (findings T01..) and "
+                                      "rasterizeEdges_walked gives the exact-invariant form with the lost term. Also proved: no sample row "
+                                      "inside (rasterizeTrapezoid_nothing), offsets that do not wrap are a translation "
+                                      "(rasterizeTrapezoid_offsets, addTrap_offsets, pixelCount_move), lists (addTrapezoids_eq_addShapes, "
+                                      "addTraps_eq_addShapes). Not covered by RowsOK although the walker is exact there: a right-leaning edge "
+                                      "of non-integral slope whose first sample row is exactly its top vertex (tie at that row); covered by the "
+                                      "Spec oracle",
+    "triangle_tiles": "R5 is proved for every vertex order (sort by (y,x), left/right by the cross product sign, horizontal sides) "
+                      "under TriFits (the int32 differences of clockwise() do not wrap) and area2 != 0; for collinear vertices the "
+                      "equality with the symmetric inside test is false at lattice ties of the snapping (both draw nothing else); "
+                      "stated for offsets 0 (the driver's flag g evaluates it on the translated triangles of addtri requests up to "
+                      "60000 samples); addTriangle_eq_triCount composes it with R3 for one triangle in the exact region",
 }
 
 RASTER_OPS = {"rast", "addtz", "addtraps", "addtri"}
@@ -184,6 +205,10 @@ def analyse(ctx, st, findings, hist, nontrivial, samples):
         if "f" in F:
             findings.append(("model:spanfill-vs-naive", op, "a8", o, img, M,
                              "the a8 span-fill loop of the model differs from the naive per-row loop"))
+        if "g" in F:
+            findings.append(("spec:triangle-vs-decomposition", op, "n" + depth, o, img, S,
+                             "the triangles' own inside test (Spec.triCount) differs from the Spec count of the two trapezoids "
+                             "although the hypotheses of Props.C12.triangle_tiles hold"))
         # non-trivial: something was drawn
         first = img[:2] if depth == "8" else img[:1]
         unit = 2 if depth == "8" else 1
